@@ -181,8 +181,10 @@ func run(ctx *core.Ctx) error {
 	}
 	mcWG.Add(2)
 	if ctx.Thorough() {
-		go mcRun("MC_CMap_t.cfg", "B=4; see MC_CMap_t.cfg", 12)
-		go mcRun("MC_CMap_rect_t.cfg", "B=3; see MC_CMap_rect_t.cfg", 4)
+		mcWG.Add(1)
+		go mcRun("MC_CMap_t.cfg", "B=4; see MC_CMap_t.cfg", 10)
+		go mcRun("MC_CMap_rect_q.cfg", "B=3; see MC_CMap_rect_q.cfg", 3)
+		go mcRun("MC_CMap_rect_t.cfg", "B=3; see MC_CMap_rect_t.cfg", 3)
 	} else {
 		go mcRun("MC_CMap_q.cfg", "B=4; see MC_CMap_q.cfg", 10)
 		go mcRun("MC_CMap_rect_q.cfg", "B=3; see MC_CMap_rect_q.cfg", 3)
